@@ -540,3 +540,10 @@ def run(ctx):
     r = ctx.rule("R8", "edge search: samples interpolate inside end -> outside end, the bracket narrows to the samples around the first non-negative value with the same interpolation, the intersection is the bracket's midpoint; edge end points from the corner bits", 8)
     ctx.guarded(r, r8_edge_search)
     ctx.guarded(r, r8b_edge_endpoints)
+    # this property quantifies over every shape and both backends, so it needs the evaluators it consults to be right
+    ctx.include('C03', 'cells are declared full / empty on interval evidence', skip=('R6',))
+    ctx.include('C04', 'cells are meshed with simplified tapes', skip=())
+    ctx.include('C20', "the trace a cell hands down must be the evaluation's own record", skip=())
+    ctx.include('C01', 'corners and edge searches are evaluated by the tape evaluators', skip=())
+    ctx.include('C02', 'corners and edge searches are evaluated by the native evaluators', skip=())
+    ctx.include('C05', 'vertex placement uses the gradient evaluators', skip=())
